@@ -6,7 +6,7 @@ B = "ghedesigner.borehole_heat_exchangers"
 FUNCTIONS = [f"{S}:Bisection1D.retrieve_flow", f"{S}:RowWiseModifiedBisectionSearch.retrieve_flow", f"{S}:Bisection1D.initialize_ghe",
              f"{S}:RowWiseModifiedBisectionSearch.initialize_ghe#body", f"{G}:BaseGHE.__init__#body", f"{B}:get_bhe_object",
              f"{B}:GHEDesignerBoreholeBase.__init__", f"{D}:DesignBase.__init__#body", f"{D}:DesignRowWise.__init__#body",
-             f"{D}:DesignNearSquare.__init__#body", f"{D}:DesignRectangle.__init__#body"] + ctors.DESIGN_CTORS + flow.SET_DESIGN
+             f"{D}:DesignNearSquare.__init__#body", f"{D}:DesignRectangle.__init__#body"] + ctors.DESIGN_CTORS + ctors.FIND_DESIGN_FLOW + flow.SET_DESIGN
 NATIVE_FUNCTIONS = [f"{S}:Bisection1D.retrieve_flow", f"{S}:Bisection1D.initialize_ghe"]
 NATIVE_CASES = {"quick": 12, "thorough": 400}
 LEVEL = "proof"
@@ -23,6 +23,8 @@ ASSUMPTIONS = [A_REAL, A_ENGINE, A_DET,
 EXPLANATION = ("retrieve_flow (both classes): BOREHOLE -> (V*N, V/1000*rho), SYSTEM -> (V, V/N/1000*rho), anything else raises ValueError; initialize_ghe (both classes) forwards the "
                "retrieve_flow values to the g-function computation and to the GHE constructor; BaseGHE.__init__ recomputes v_sys/N/1000*rho and hands it unchanged to get_bhe_object. "
                "All six design-class constructors hand the flow rate and flow type they were given to DesignBase.__init__, which stores them (bodies verified; domain generators abstract). "
+               "Every Design*.find_design builds its search object with the design's own flow rate and flow type, and RowWiseModifiedBisectionSearch.__init__ stores them "
+               "(Bisection1D/2D/ZD.__init__ carry the same clause on their bodies, verified in C01/C05). "
                "Lemmas over these contracts: the two specifications give identical flows at both places; with a system flow, flow x N is constant along the candidate list.")
 LEVEL_TEXT = ("Deductive proof for all flows, densities and borehole counts >= 1 that both flow specifications reach the g-function and the exchanger with the same per-borehole mass flow "
               "V/1000*rho, and that a system flow splits as 1/N; equality of resistance/temperatures then follows from determinism (A-DET) and is cross-checked on real objects (bounded).")
